@@ -173,6 +173,7 @@ func report(t fataler, f *Failure) {
 type KnownFinding struct {
 	Property  string          `json:"property"`
 	Signature string          `json:"signature"`
+	Also      []string        `json:"also,omitempty"` // other properties whose checks hit the same defect
 	Status    string          `json:"status"` // open | fixed
 	What      string          `json:"what"`
 	Site      string          `json:"site,omitempty"`
@@ -216,6 +217,9 @@ func loadKF() {
 		for _, k := range kfList {
 			if k.Status == "open" {
 				kfActive[k.Property+"/"+k.Signature] = true
+				for _, p := range k.Also {
+					kfActive[p+"/"+k.Signature] = true
+				}
 			}
 		}
 	})
@@ -290,7 +294,14 @@ func TestWitnesses(t *testing.T) {
 	defer func() { kfDisabled = false }()
 	for _, k := range kfList {
 		if k.Property != prop {
-			continue
+			also := false
+			for _, p := range k.Also {
+				also = also || p == prop
+			}
+			if !also {
+				continue
+			}
+			k.Property = prop
 		}
 		if k.Status != "open" {
 			// a fixed entry suppresses nothing; its witness must pass now
